@@ -373,6 +373,51 @@ def rules(ck, P):
     if cc:
         ck.check(ir.contains(cc[0]["body"], lambda y: y.get("k") == "call" and y.get("q") == nfr), "R-SAME-READER", "convert_tiles_container",
                  "convert_tiles_container builds its reader with new_from_reader", "convert_tiles_container bypasses new_from_reader")
+    # serve: EVERY tile source is wrapped when a flag is set (the guard may not depend on state that changes between sources)
+    sv = [P.fn(u) for u in users if "::tools::serve::" in u]
+    if ck.anchor("R-SAME-READER", "serve function using new_from_reader", sv, 1):
+        b = sv[0]
+        loops = [n for n in ir.walk_nodes(b["body"]) if n.get("k") == "for" and ir.contains(n["body"], lambda y: y.get("k") == "mcall" and y.get("name") == "add_tile_source")]
+        ok = False
+        why = "no loop over the tile sources that adds them to the server"
+        if len(loops) == 1:
+            lp = loops[0]
+            wraps = []
+            for n, parents, _ in ir.walk(lp["body"]):
+                if n.get("k") == "call" and n.get("q") == nfr:
+                    wraps.append((n, [p for p in parents if p.get("k") in ("if", "match", "while", "for", "loop", "closure")]))
+            if len(wraps) != 1:
+                why = "%d new_from_reader calls inside the source loop (the wrapper must be built per source)" % len(wraps)
+            else:
+                n, guards = wraps[0]
+                ap = [x for p_ in b["params"] for x in ir.pat_binds(p_)]
+                al = ir.Aliases(b)
+                arg_h = {al.canon(x["hid"]) for x in ap}
+                bad = []
+                flags = set()
+                for g in guards:
+                    if g.get("k") != "if":
+                        bad.append("wrapped inside `%s`" % g["k"])
+                        continue
+                    c = g["c"]
+                    for y in ir.walk_nodes(c):
+                        if y.get("k") == "path" and y.get("r") == "local" and al.canon(y["hid"]) not in arg_h:
+                            bad.append("guard reads local `%s`" % y["name"])
+                        if y.get("k") in ("mcall", "call", "letx"):
+                            bad.append("guard evaluates `%s`" % (y.get("name") or y.get("q") or y["k"]))
+                        if y.get("k") == "field" and y.get("name") in OPS:
+                            flags.add(y["name"])
+                    if not ir.contains(g["then"], lambda y: y is n):
+                        bad.append("wrap is in the else branch")
+                is_or = len(guards) == 1 and ir.unparen(guards[0]["c"]).get("k") == "bin" and ir.unparen(guards[0]["c"]).get("op") == "||"
+                ok = not bad and flags == set(OPS) and is_or
+                why = "; ".join(bad) or "guard flags %s" % sorted(flags)
+                # the wrapped reader is the one handed to the server
+                add = [y for y in ir.walk_nodes(lp["body"]) if y.get("k") == "mcall" and y.get("name") == "add_tile_source"]
+                asg = [y for y in ir.walk_nodes(lp["body"]) if y.get("k") == "assign" and ir.contains(y["r"], lambda z: z is n)]
+                ok = ok and len(add) == 1 and len(asg) == 1 and ir.local_hid(asg[0]["l"]) == ir.local_hid(add[0]["a"][1])
+        ck.check(ok, "R-SAME-READER", "serve|every-source", "serve wraps every tile source when flip_y || swap_xy (guard reads only the command-line flags) and serves the wrapped reader",
+                 "serve does not apply the transform to every source: %s" % why, ir.loc(b))
     # flags
     newp = [b for b in P.bodies if b["q"].endswith("TilesConverterParameters::new")]
     for uq in users:
